@@ -144,7 +144,7 @@ noncomputable def escapeAlts : List Expr :=
 
 /-- Position of the hex alternative in `Escape` and the name of its action rule. -/
 def hexPos : Nat := 13
-def hexAction : String := "Action46"
+def hexAction : String := "Action45"
 
 def hexAlt : Expr :=
   .seq [.chr 92, .seq [.chr 48, .alt [.chr 120, .chr 88]], .push (.plus hexClass) "PegText",
